@@ -128,6 +128,11 @@ class Registry:
             if pycls not in self.instance_classes:
                 self.instance_classes.append(pycls)
                 V.cid_of(pycls)
+        if not hasattr(self, 'theory_never_returns'):
+            self.theory_never_returns = []
+        for pycls in glob.get('THEORY_NEVER_RETURNS', []):
+            if pycls not in self.theory_never_returns:
+                self.theory_never_returns.append(pycls)
         for pycls, names in glob.get('HEAP_CLASS_ATTRS', {}).items():
             for n in names:
                 self.heap_class_attrs.add((pycls, n))
